@@ -330,6 +330,11 @@ def gen_aggh(full):
         yield Case('AGGH', Program([R('T', x, Aggr(op, e), body=body, distinct=True)]), ['T'])
         yield Case('AGGH', Program([R('T', Aggr(op, e), body=body, distinct=True)]), ['T'], info='keyless')
         yield Case('AGGH', Program([R('T', x, value=Aggr(op, e), body=body)]), ['T'])
+    # K-best aggregates through a user-defined aggregator (the documented idiom)
+    for opk, k in (('ArgMax2', 2), ('ArgMin2', 2), ('ArgMax3', 3)):
+      dfn = Ann('%s(a) = %sK(a, %d);' % (opk, opk[:6], k))
+      yield Case('AGGH', Program([dfn, R('T', x, Aggr(opk, arrow(y, y)), body=body, distinct=True)]), ['T'])
+      yield Case('AGGH', Program([dfn, R('T', Aggr(opk, arrow(x, Bin('+', x, y))), body=body, distinct=True)]), ['T'], info='keyless')
     yield Case('AGGH', Program([R('T', x, y, body=body, distinct=True)]), ['T'])                            # plain distinct
     yield Case('AGGH', Program([R('T', x, body=body, distinct=True)]), ['T'])
     yield Case('AGGH', Program([R('T', Bin('+', x, y), body=body, distinct=True)]), ['T'])
@@ -454,6 +459,8 @@ TIE_DBS_AB = [
   {'A': [(1, 2), (1, 2), (2, 1)], 'B': [(1,), (2,)]},
   {'A': [(1, 1), (1, 2), (2, 2)], 'B': [(1,), (2,)]},
   {'A': [(1, 1), (2, 1), (2, 2), (1, 2)], 'B': [(2,), (1,), (1,)]},
+  {'A': [(1, 2), (1, 1), (1, 4), (1, 3)], 'B': [(1,), (2,), (3,), (4,)]},
+  {'A': [(1, 3), (2, 4), (1, 1), (2, 2), (1, 2)], 'B': [(1,), (2,), (4,), (3,)]},
 ]
 
 
